@@ -18,6 +18,7 @@ type Val struct {
 	HBase   *Term
 	HStruct types.Type // the struct type owning the field arrays
 	HPath   string
+	Proto   string // protocol obeyed by this function value (callbacks, yield functions)
 }
 
 // FnVal is a known function value (closure literal or method value).
